@@ -9269,6 +9269,16 @@ class SVG(Group):
                             values[SVG_ATTR_TRANSFORM] = viewport_transform
                         values["viewport_transform"] = values[SVG_ATTR_TRANSFORM]
                         width, height = s.viewbox.width, s.viewbox.height
+                    elif context is not None and (s.x != 0 or s.y != 0):
+                        # Without a viewbox a nested svg still places its viewport at x, y.
+                        position = "translate(%s, %s)" % (
+                            Length.str(s.x),
+                            Length.str(s.y),
+                        )
+                        if SVG_ATTR_TRANSFORM in values:
+                            values[SVG_ATTR_TRANSFORM] += " " + position
+                        else:
+                            values[SVG_ATTR_TRANSFORM] = position
                     for geometric in (
                         SVG_ATTR_X,
                         SVG_ATTR_Y,
